@@ -1,18 +1,22 @@
 #!/usr/bin/env python3
 """run_seed.py <seeded/NAME> [tier]  — applies the seeded patch to /repo, runs the property's check,
 undoes the patch, records the outcome in meta.json (caught / how)."""
-import json, os, re, subprocess, sys
+import fcntl, json, os, re, subprocess, sys
+_lock = open('/tmp/verif-seed.lock', 'w'); fcntl.flock(_lock, fcntl.LOCK_EX)   # one seeded patch in /repo at a time
 d = sys.argv[1].rstrip('/'); tier = sys.argv[2] if len(sys.argv) > 2 else 'quick'
 meta = json.load(open(d + '/meta.json')); pid = meta['property']
 def sh(c): return subprocess.run(c, shell=True, stdout=subprocess.PIPE, stderr=subprocess.STDOUT, text=True)
-st = sh('git -C /repo status --porcelain').stdout.strip()
-if st: print('refusing: /repo not clean:\n' + st); sys.exit(2)
+# other work may be in progress in /repo: the patch is applied and reverse-applied, nothing else is touched
+touched = [l[6:].strip() for l in open(d + '/patch.diff') if l.startswith('+++ b/')]
+st = sh('git -C /repo status --porcelain -- ' + ' '.join(touched)).stdout.strip()
+if st: print('refusing: files of the patch have uncommitted changes in /repo:\n' + st); sys.exit(2)
 a = sh('git -C /repo apply ' + os.path.abspath(d) + '/patch.diff')
 if a.returncode: print('patch does not apply:', a.stdout); sys.exit(2)
 try:
     r = sh('cd /verif && ./check %s %s' % (pid, tier))
 finally:
-    sh('git -C /repo checkout -- . && git -C /repo clean -fdq -e "**/verif_export*.go"')
+    u = sh('git -C /repo apply -R ' + os.path.abspath(d) + '/patch.diff')
+    if u.returncode: print('COULD NOT UNDO PATCH:', u.stdout)
 vl = [l for l in r.stdout.split('\n') if l.startswith('VIOLATION')]
 how = 'missed'
 if vl:
